@@ -128,6 +128,10 @@ def run_py(src: str, entry: str, args: list, budget: int = 20000, max_abs: int =
         except PanicExc as e:
             ret, end = None, "panic"
             events.append(["panic", str(e)])
+        except IndexError:
+            # out-of-bounds subscript: Python raises where Guppy panics
+            ret, end = None, "panic"
+            events.append(["panic", "index out of bounds"])
         except ZeroDivisionError:
             # Python raises where Guppy panics: the same observable "stops here"
             ret, end = None, "panic"
